@@ -67,6 +67,7 @@ def items(tier):
               ("sum3", v("x1", "tnum"), v("x1"), v("x2", "tnum")), ("sub1", v("a1", "arr"), ("sum2", v("x2", "tnum"), v("x3")))]:
         for m in MAPS:
             out.append(("skel", d, m))
+    out.append(("reuse",))
     return out
 
 
@@ -228,7 +229,55 @@ def identity_violations(orig, result, keys, cached=False):
     return bad
 
 
+def check_reuse():
+    """one memoizing substitution mapper used for several substitutions, also on containers that cannot be hashed
+    and that the caller updates in place between the calls: every answer equals the plain mapper's"""
+    import numpy as np
+    from pymbolic.mapper.substitutor import CachedSubstitutionMapper, SubstitutionMapper, make_subst_func
+    res = ItemResult(item="reused memoizing mapper", sample={"family": "call histories on one CachedSubstitutionMapper"})
+    x, y, z = (p.Variable(n) for n in "xyz")
+    fn = make_subst_func({"x": p.Sum((y, 1)), "y": z})
+
+    def norm(v):
+        if isinstance(v, np.ndarray):
+            return ("array", tuple(norm(c) for c in v.flat))
+        if isinstance(v, (list, tuple)):
+            return (type(v).__name__, tuple(norm(c) for c in v))
+        return repr(v)
+    cached = CachedSubstitutionMapper(fn)
+    lst = [p.Sum((x, 1)), y]
+    arr = np.empty(2, dtype=object)
+    arr[0], arr[1] = p.Product((x, y)), x
+    steps = [("list", lambda: lst), ("expr", lambda: p.Product((x, y))), ("list again", lambda: lst),
+             ("list updated in place", lambda: (lst.__setitem__(0, p.Product((2, x))), lst)[1]),
+             ("array", lambda: arr), ("array updated in place", lambda: (arr.__setitem__(1, p.Sum((y, z))), arr)[1]),
+             ("fresh short-lived list", lambda: [p.Power(x, 2), z]), ("another short-lived list", lambda: [p.Power(y, 3), x]),
+             ("call holding a list", lambda: p.Call(p.Variable("f"), ([x, y],))), ("expr again", lambda: p.Product((x, y)))]
+    for label, mk in steps:
+        res.path_assertions += 1
+        e = mk()
+        try:
+            got, want = norm(cached(e)), norm(SubstitutionMapper(fn)(e))
+        except Exception as ex_:  # noqa: BLE001
+            got, want = repr(ex_), "no exception"
+            try:
+                want = norm(SubstitutionMapper(fn)(e))
+            except Exception as ex2:  # noqa: BLE001
+                want = repr(ex2)
+                if type(ex2).__name__ in got:
+                    continue
+        if got != want:
+            res.status = "violation"
+            res.violations.append(Violation(sig=f"reuse step {label}", kind="subst-reuse",
+                                            detail=f"step '{label}' on one reused CachedSubstitutionMapper gives {got!r:.200}; "
+                                                   f"the plain mapper gives {want!r:.200}", replay={"step": label}))
+    res.paths = 1
+    return res
+
+
 def check_item(item, tier):
+    if item[0] == "reuse":
+        return check_reuse()
     twin = item[0] == "twin"
     _, desc, shape = item
     from pymbolic import substitute
